@@ -2,7 +2,8 @@
    Only statements, `exact`, and Print Assumptions live here. *)
 From Coq Require Import NArith ZArith List Bool.
 Require Import Board Flood Masks LowBit Conn Move GameOver Groups1 Groups2 Groups3 Groups4 Rules RoadFacts RoadFacts2.
-Require Import Refine Slide2 Slide6 Slide8 GameOverFacts1 GameOverFacts2 GameOverFacts3 GameOverFacts4 GameOverFacts5 GameOverFacts6.
+Require Import Refine Slide2 Slide6 Slide8 GameOverFacts1 GameOverFacts2 GameOverFacts3 GameOverFacts4 GameOverFacts5 GameOverFacts6 GameOverFacts7.
+Require Preserve1 Reach1 Alloc.
 Import ListNotations.
 
 (* bitboard.Flood never runs out of its fuel of 65 iterations and returns exactly the set of squares
@@ -98,6 +99,27 @@ Theorem C02_inv_step : forall p m, inv p -> tall_ok p -> mT m <> 1%N ->
   end.
 Proof. exact inv_step. Qed.
 Print Assumptions C02_inv_step.
+
+(* `inv` holds of every position that satisfies the exact C01 invariant (Preserve1.pos_ok) in a game of at most 255 pieces ... *)
+Theorem C02_pos_ok_inv : forall p, Preserve1.pos_ok p -> (Preserve1.total p <= 255)%N -> inv p.
+Proof. exact pos_ok_inv_total. Qed.
+Print Assumptions C02_pos_ok_inv.
+
+(* ... hence for the positions of real games NO hypothesis about the position is left: for every position replayed from tak.New
+   (any size 3..8, either tie-break flag, any piece set of at most 64 pieces - the standard sets of 3x3..6x6) through any
+   sequence of accepted moves, the position is the one the rules reach and GameOver / WinDetails / ResultFromGame report
+   exactly the rules' unique outcome there. *)
+Theorem C02_game_over_correct_game : forall sz bwt stones caps ms p,
+  (3 <= sz <= 8)%N -> (2 * (stones + caps) <= 64)%N -> Reach1.no_pass ms ->
+  Reach1.replay (Alloc.new_pos sz bwt stones caps) ms = Ok p ->
+  Rules.play (Reach1.rules_start (N.to_nat sz) stones caps bwt) (map raw ms) = Some (abs p) /\
+  exists o,
+    Outcome (abs p) o /\ (forall o', Outcome (abs p) o' -> o' = o) /\
+    game_over p = Some (outcome_over o, outcome_winner o) /\
+    win_details p = Some (outcome_details (abs p) o) /\
+    result_from_game (outcome_details (abs p) o) = outcome_text o.
+Proof. exact game_over_correct_game. Qed.
+Print Assumptions C02_game_over_correct_game.
 
 (* Non-vacuity: a reachable 5x5 position (13 plies from the start) with a bending white road through a capstone
    satisfies `inv`; the rules' road is exhibited directly, and the theorem yields the rules' outcome. *)
